@@ -380,7 +380,20 @@ func checkStepStores(c *Ctx, sc stepConsts, rState, rIdx, rPair string, only map
 				if n, _ := FieldOf(fa); n != "NextStepIndex" {
 					return false
 				}
-				return TermOf(s2.Val).Any(MCall("util.NextBatchIndex"))
+				// the next index must be derived from the index just written: the same value, the same
+				// constant, or a re-read of the very field that was written (not a mirror of it)
+				for x := range BackwardSlice(s2.Val) {
+					call, ok := x.(*ssa.Call)
+					if !ok || !NameMatch(CalleeName(&call.Call), "util.NextBatchIndex") || len(call.Call.Args) < 2 {
+						continue
+					}
+					arg := call.Call.Args[1]
+					at, vt2 := TermOf(arg), TermOf(st.Val)
+					if arg == st.Val || at.String() == vt2.String() || (at.Op == "field" && at.Fld == idxFld) {
+						return true
+					}
+				}
+				return false
 			}
 			reach, _ := CanReach(PointAfter(st), IsReturn, ReachOpts{CutInstr: isNext})
 			c.Ob(rPair, FuncName(fn)+"#pair(CurrentStepIndex,NextStepIndex)", st.Pos(), !reach, "NextStepIndex = NextBatchIndex(...) follows the index write on every path",
